@@ -60,6 +60,9 @@ type rworld struct {
 	queue     []*inflight
 	crossings []crossing
 	record    bool
+	// unbufferedHandler: the next nodes get a frame handler channel without a buffer (as the running
+	// system has: the switch input is unbuffered), so that a link reader can be parked at the hand-over
+	unbufferedHandler bool
 }
 
 func newRWorld() *rworld { return &rworld{} }
@@ -94,6 +97,9 @@ func (w *rworld) addNode(name string, store config.Store, id *m.Address) (*rnode
 	n.sw = switchr.New(n.stub, n.upstream)
 	n.stub.SwitchStub = n.sw
 	n.peerIn = make(chan frame.Frame, 1024)
+	if w.unbufferedHandler {
+		n.peerIn = make(chan frame.Frame)
+	}
 	n.pe = peering.New(&nodeInst{n.stub, n}, n.peerIn)
 	n.stub.PeeringStub = n.pe
 	ro, err := router.New(n.stub, router.Config{})
